@@ -359,7 +359,12 @@ def _leafkind(v):
 
 def _wrong_root(ctx, cfg):
     import cincoconfig as cc
-    for written, read in (("config", "cfg"), ("cfg", "config"), ("a", "A"), ("config", "config2")):
+    pairs = [("config", "cfg"), ("cfg", "config"), ("a", "A"), ("config", "config2")]
+    for r in ("config", "cfg", "t"):
+        pairs += [("x" + r, r), ("my-" + r, r), ("a." + r, r), (r + "x", r), (r + "-1", r), (r.upper(), r), (r, r + "s"), ("_" + r, r)]
+        if len(r) > 1:
+            pairs += [(r[1:], r), (r[:-1], r), (r, r[1:]), (r, r[:-1])]
+    for written, read in pairs:
         for tree in ({}, {"a": 1}, {"cfg": {"config": "x"}}):
             data = cc.ConfigFormat.get("xml", root_tag=written).dumps(cfg, tree)
             ctx.transitions += 1
